@@ -3,12 +3,102 @@
   ClientAuthenticator.preference          mechanism names in the order they are offered
   BasicDBusProtocol.MAX_AUTH_LENGTH       longest accepted authentication line
   BasicDBusProtocol.authDelimiter         line delimiter of the handshake
-  dir(ClientAuthenticator)                the words W for which a handler `_auth_W` exists (sorted)
+  handler words                           route 1: the words W for which a method `_auth_W` exists (dir);
+                                          route 2 (behaviour): candidate words that a real ClientAuthenticator
+                                          does not refuse the way it refuses an unknown word, in at least one of
+                                          three states (fresh; fresh on a UNIX transport; after OK on a UNIX
+                                          transport, i.e. negotiating).  Both must agree; found only by route 2
+                                          (handlers renamed / table-driven dispatch) -> ADVISORIES; neither -> error.
 
 Anything outside the expected shape (a non-bytes name, a name with a byte that would break the
 line protocol, a non-integer limit) is a translator failure, not a silently different table.
 """
 MODULE = 'TxdbusModel.Gen.ClientAuth'
+
+# Filled by emit(): entries derived by probing the real code because the source shape was not the known one.
+ADVISORIES = []
+
+
+def _probe_handler_words(authentication):
+    """Words the client authenticator has a handler for, by behaviour: `handleAuthMessage(W ...)` on a real
+    ClientAuthenticator that does NOT end in the refusal an unknown word gets (DBusAuthenticationFailed in every
+    state, nothing sent)."""
+    import inspect
+    import re
+    from twisted.internet import interfaces
+    from zope.interface import implementer
+    from txdbus.error import DBusAuthenticationFailed
+
+    @implementer(interfaces.IUNIXTransport)
+    class UnixT:
+        def write(self, d):
+            pass
+
+        def writeSequence(self, d):
+            pass
+
+        def loseConnection(self):
+            pass
+
+        def getPeer(self):
+            pass
+
+        def getHost(self):
+            pass
+
+        def sendFileDescriptor(self, fd):
+            pass
+
+    class Proto:
+        def __init__(self, unix):
+            self.sent = []
+            if unix:
+                self.transport = UnixT()
+
+        def sendAuthMessage(self, m):
+            self.sent.append(m)
+
+    def fresh(unix, prelude):
+        pr = Proto(unix)
+        ca = authentication.ClientAuthenticator()
+        ca.beginAuthentication(pr)
+        for l in prelude:
+            try:
+                ca.handleAuthMessage(l)
+            except Exception:
+                return None, None
+        return ca, pr
+    states = [(False, []), (True, []), (True, [b'OK 3031'])]
+    cands = {'OK', 'REJECTED', 'ERROR', 'DATA', 'AGREE_UNIX_FD', 'AUTH', 'BEGIN', 'CANCEL', 'NEGOTIATE_UNIX_FD'}
+    try:
+        for w in re.findall(r'[A-Z][A-Z0-9_]{1,40}', inspect.getsource(authentication.ClientAuthenticator)):
+            cands.add(w)
+            for k in range(1, len(w)):
+                if w[k - 1] == '_':
+                    cands.add(w[k:])
+    except (OSError, TypeError):
+        pass
+
+    def refused_everywhere(word):
+        for unix, prelude in states:
+            for arg in (b'', b' 3031'):
+                ca, pr = fresh(unix, prelude)
+                if ca is None:
+                    continue
+                n = len(pr.sent)
+                try:
+                    ca.handleAuthMessage(word + arg)
+                except DBusAuthenticationFailed:
+                    if len(pr.sent) == n:
+                        continue
+                    return False
+                except Exception:
+                    return False
+                return False
+        return True
+    if not refused_everywhere(b'NO_SUCH_WORD_xq'):
+        return None            # the probe cannot tell handled from unknown words
+    return sorted(w.encode('ascii') for w in cands if not refused_everywhere(w.encode('ascii')))
 
 
 def _bytes(bs):
@@ -31,8 +121,26 @@ def emit(repo):
     delim = protocol.BasicDBusProtocol.authDelimiter
     if not isinstance(delim, bytes):
         raise ValueError('authDelimiter is not bytes: %r' % (delim,))
-    handlers = sorted(n[len('_auth_'):].encode('utf-8') for n in dir(authentication.ClientAuthenticator)
-                      if n.startswith('_auth_'))
+    del ADVISORIES[:]
+    by_dir = sorted(n[len('_auth_'):].encode('utf-8') for n in dir(authentication.ClientAuthenticator)
+                    if n.startswith('_auth_'))
+    try:
+        by_probe = _probe_handler_words(authentication)
+    except Exception:
+        by_probe = None
+    if by_dir and by_probe is not None:
+        if by_dir != by_probe:
+            raise ValueError('handler words: `_auth_*` methods say %r, the behaviour of the real authenticator %r'
+                             % (by_dir, by_probe))
+        handlers = by_dir
+    elif by_dir:
+        handlers = by_dir
+    elif by_probe:
+        handlers = by_probe
+        ADVISORIES.append('ClientAuthenticator has no `_auth_<WORD>` methods any more; the handler words %r were '
+                          'found by probing the real authenticator' % (by_probe,))
+    else:
+        raise ValueError('handler words: no `_auth_*` methods and the behavioural probe is inconclusive')
     out = []
     out.append('/- GENERATED by tools/tables/c07_client_auth.py from txdbus/authentication.py and')
     out.append('   txdbus/protocol.py - do not edit. -/')
